@@ -139,6 +139,26 @@ CLAIMS = {
         "(necessary conditions only): markup constants pairwise distinct per role, (feature, brackets) injective per category, non-empty connecters/copulas, "
         "three-way arity layout always emits connecter and all components, atom names go through to_debug. Injectivity over all value pairs is not decided.",
    note="Trusted: rustc HIR/MIR, reviewed table, ToDebug quoting, finite terms."),
+ "C02": dict(
+   level="other", design="DESIGN.md §4 C02",
+   technique="static analysis: sibling call-multiset comparison (MIR), formatter/parser table-field agreement (MIR projections), table laws under the dependency's iteration order, emission-skeleton evaluation (HIR)",
+   text="Structural necessary conditions of the lexical round trip, for all three formats at once: segment_budget and segment_truth are siblings (same "
+        "resolved-callee multiset, both drop empty pieces, each reads only its own fields); every formatter function writes exactly the table fields of its "
+        "role and the parser's counterpart reads them; content predicates cover digits/'.'/separator and reject bracket chars, the budget's closing char "
+        "cannot occur in any suffix item, dictionaries are duplicate-free and extension-before-prefix (suffix dictionaries longest-suffix-first) under "
+        "nar_dev_utils' descending iteration; an empty truth is omitted and defaults back to empty, a budget is never omitted; sentence order is term, "
+        "punctuation, stamp, truth. Tree equality for all values is not decided.",
+   note="Trusted: rustc HIR/MIR, nar_dev_utils 0.42.3 dictionary/join semantics (source hash asserted), rule layer."),
+ "C11": dict(
+   level="other", design="DESIGN.md §4 C11",
+   technique="static analysis: table extraction vs the README's PEG (parsed each run) and a frozen OpenNARS reference lexicon; symbolic emission skeletons of templates and formatter wiring",
+   text="Lexicon clause decided exactly: every ASCII keyword of both tables lies in the token class the README grammar assigns to its role (literal brackets "
+        "and separators, the four copula alternatives, connecter/prefix/punctuation character classes via Unicode categories, stamp shape) and equals the "
+        "frozen OpenNARS-compatible reference lexicon (catches formatter and parser drifting together). Layout clause: the six template functions and the "
+        "enum/lexical formatter wiring are evaluated symbolically to emission skeletons and compared with the grammar's productions (compound, set, statement, "
+        "sentence item order, task = budget sentence, numeric lists). Equality of the grammar's derivation tree with the lexical parser's result for every "
+        "output is not decided.",
+   note="Trusted: rustc HIR, README pest block, the frozen reference lexicon, Unicode category data of the Python runtime."),
 }
 
 NOT_YET = "check not built yet (DESIGN.md §8 build order); will be claimed once its rules run"
